@@ -470,6 +470,8 @@ def run_shard(spec, acc):
         errs = refusal_errors(kind)
         # "for as long as needed": up to an outage of three virtual hours (1100 refused attempts; 2600 in the thorough tier)
         ks = [0, 1, 2, 3, 4, 5, 8, 13, 30, 1100] if quick else list(range(0, 31)) + [300, 1100, 2600]
+        # and as many refusals as any count the code under test mentions literally (plus one)
+        ks = sorted(set(ks) | {k_ + 1 for k_ in gen.harvested_in(30, 3000)[:3]})
         for k in ks:
             for j, exc in enumerate(errs):
                 if quick and k > 5 and j != k % len(errs):
